@@ -615,8 +615,12 @@ type c09Vals struct {
 	mc       [][]int // in the labels of the request graph, canonical order
 	chi      int
 	kcol     string
+	kcolV    string
+	chiCert  bool
 	ci       int
 	deg      int
+	degCert  bool
+	degDone  bool
 	poly     []int
 	cc       []int64
 	greedy   string
@@ -646,7 +650,10 @@ func c09Compute(f c09Form, flags string, order []int, bf bool, fail func(string,
 	masks := c09Masks(eg)
 	for _, fl := range flags {
 		switch fl {
-		case 'q':
+		case 'q', 'Q':
+			if v.mc != nil {
+				continue
+			}
 			v.w = graph.CliqueNumber(g)
 			v.a = graph.IndependenceNumber(g)
 			cs := c09AllMaximalCliques(g)
@@ -709,9 +716,13 @@ func c09Compute(f c09Form, flags string, order []int, bf bool, fail func(string,
 				}
 			}
 			v.mc = c09SortCliques(mapped)
-		case 'c':
+		case 'c', 'C':
+			if v.kcol != "" {
+				continue
+			}
 			chi, col := graph.ChromaticNumber(g)
 			v.chi = chi
+			v.chiCert = c09ProperColouring(eg, col) == "" && c09UsesExactly(col, chi)
 			if msg := c09ProperColouring(eg, col); msg != "" {
 				fail("%s: ChromaticNumber=%d with colouring %v: %s", f.name, chi, col, msg)
 			} else if !c09UsesExactly(col, chi) {
@@ -724,10 +735,21 @@ func c09Compute(f c09Form, flags string, order []int, bf bool, fail func(string,
 					fail("%s: ChromaticNumber=%d, exhaustive search gives %d", f.name, chi, want)
 				}
 			}
-			var sb strings.Builder
+			var sb, sv strings.Builder
 			for k := 0; k <= n+1; k++ {
 				ok, c := graph.IsKColorable(g, k)
 				if ok {
+					good := c09ProperColouring(eg, c) == ""
+					for _, x := range c {
+						if x >= k {
+							good = false
+						}
+					}
+					if good {
+						sv.WriteByte('1')
+					} else {
+						sv.WriteByte('X')
+					}
 					sb.WriteByte('1')
 					if msg := c09ProperColouring(eg, c); msg != "" {
 						fail("%s: IsKColorable(%d)=true with colouring %v: %s", f.name, k, c, msg)
@@ -741,6 +763,7 @@ func c09Compute(f c09Form, flags string, order []int, bf bool, fail func(string,
 					}
 				} else {
 					sb.WriteByte('0')
+					sv.WriteByte('0')
 					if c != nil {
 						fail("%s: IsKColorable(%d)=false with a non-nil colouring", f.name, k)
 					}
@@ -750,6 +773,7 @@ func c09Compute(f c09Form, flags string, order []int, bf bool, fail func(string,
 				}
 			}
 			v.kcol = sb.String()
+			v.kcolV = sv.String()
 		case 'e':
 			ci, b := graph.ChromaticIndex(g)
 			v.ci = ci
@@ -768,9 +792,14 @@ func c09Compute(f c09Form, flags string, order []int, bf bool, fail func(string,
 					fail("%s: ChromaticIndex=%d, exhaustive search gives %d", f.name, ci, want)
 				}
 			}
-		case 'd':
+		case 'd', 'D':
+			if v.degDone {
+				continue
+			}
+			v.degDone = true
 			d, o := graph.Degeneracy(g)
 			v.deg = d
+			v.degCert = c09DegeneracyCert(eg, d, o) == ""
 			if msg := c09DegeneracyCert(eg, d, o); msg != "" {
 				fail("%s: Degeneracy=%d: %s", f.name, d, msg)
 			}
@@ -923,14 +952,14 @@ func c09Run(args []string) Result {
 		nm := forms[i].name
 		for _, fl := range flags {
 			switch fl {
-			case 'q':
+			case 'q', 'Q':
 				if w.w != v.w || w.a != v.a {
 					fail("%s: clique/independence number %d/%d differ from dense %d/%d", nm, w.w, w.a, v.w, v.a)
 				}
 				if c09ShowCliques(w.mc) != c09ShowCliques(v.mc) {
 					fail("%s: maximal cliques %v differ from dense %v", nm, w.mc, v.mc)
 				}
-			case 'c':
+			case 'c', 'C':
 				if w.chi != v.chi || w.kcol != v.kcol {
 					fail("%s: chromatic number %d / k-colourability %s differ from dense %d / %s", nm, w.chi, w.kcol, v.chi, v.kcol)
 				}
@@ -938,7 +967,7 @@ func c09Run(args []string) Result {
 				if w.ci != v.ci {
 					fail("%s: chromatic index %d differs from dense %d", nm, w.ci, v.ci)
 				}
-			case 'd':
+			case 'd', 'D':
 				if w.deg != v.deg {
 					fail("%s: degeneracy %d differs from dense %d", nm, w.deg, v.deg)
 				}
@@ -982,6 +1011,29 @@ func c09Run(args []string) Result {
 		switch fl {
 		case 'q':
 			parts = append(parts, fmt.Sprintf("w=%d a=%d mc=%s", v.w, v.a, c09ShowCliques(v.mc)))
+		case 'Q':
+			parts = append(parts, fmt.Sprintf("W=%d A=%d MC=%s", v.w, v.a, c09ShowCliques(v.mc)))
+		case 'O':
+			parts = append(parts, "MCo="+c09ShowCliques(c09AllMaximalCliques(forms[0].g)))
+		case 'D':
+			parts = append(parts, fmt.Sprintf("DEG=%d cert=%s", v.deg, c09Verdict(v.degCert)))
+		case 'o':
+			dd, oo := graph.Degeneracy(forms[0].g)
+			parts = append(parts, fmt.Sprintf("DEGo=%d:%s", dd, showInts(oo)))
+		case 'C':
+			parts = append(parts, fmt.Sprintf("CHI=%d cert=%s KCOL=%s", v.chi, c09Verdict(v.chiCert), v.kcolV))
+		case 'x':
+			chi, col := graph.ChromaticNumber(forms[0].g)
+			ks := []string{}
+			for k := 0; k <= g.N+1; k++ {
+				ok, c := graph.IsKColorable(forms[0].g, k)
+				if c == nil {
+					ks = append(ks, fmt.Sprintf("%v:nil", ok))
+				} else {
+					ks = append(ks, fmt.Sprintf("%v:%s", ok, showInts(c)))
+				}
+			}
+			parts = append(parts, fmt.Sprintf("CHIo=%d:%s KCOLo=%s", chi, showInts(col), strings.Join(ks, " ")))
 		case 'c':
 			parts = append(parts, fmt.Sprintf("chi=%d kcol=%s", v.chi, v.kcol))
 		case 'e':
@@ -1426,7 +1478,7 @@ func c09Flags(g EG, tier string) string {
 	n, m := g.N, len(g.E)
 	fl := ""
 	if n <= 10 {
-		fl += "qcd"
+		fl += "qQcCdD"
 	}
 	me := 9
 	if tier == "thorough" {
@@ -1492,7 +1544,7 @@ func c09Gen(r *rand.Rand, tier string, emit func(string)) {
 				if idx%2 != pick { // quick tier: every other class (the seed chooses which half)
 					return
 				}
-				fl := "qcd"
+				fl := "qQcCdD"
 				if len(g.E) <= 9 {
 					fl += "e"
 				}
